@@ -2055,6 +2055,44 @@ func heapProgramBody(p *Prog, r *R, prof string) {
 				if (oc1 == "(Ret (OKind KUndefined))") != (oc2 == "Pan") {
 					p.m.fail("TypeOfTF(%q)=%s but GetTF gives %s", tf, oc1, oc2)
 				}
+				// the same path again after a list ON the path was reordered in place (reversed, shifted by an insertion or a deletion
+				// at the front): the index segments now name other elements
+				if r.chance(0.3) && !p.broken {
+					var onPath []pathInfo
+					if _, isList := root.(at.List); isList {
+						onPath = append(onPath, pathInfo{path: "", val: root})
+					}
+					for _, pi := range paths {
+						if _, isList := pi.val.(at.List); isList && len(pi.path) < len(tf) && strings.HasPrefix(tf, pi.path) && (tf[len(pi.path)] == '#' || tf[len(pi.path)] == '.') {
+							onPath = append(onPath, pi)
+						}
+					}
+					if len(onPath) > 0 {
+						pi := pickOf(r, onPath)
+						reg := rr
+						if pi.path != "" {
+							if p.do(&Op{Name: "GetTF", R: rr, TF: pi.path}) != "Pan" {
+								reg = len(p.m.vars) - 1
+							} else {
+								reg = -1
+							}
+						}
+						if reg >= 0 && !p.broken {
+							if l, ok := p.m.vars[reg].(at.List); ok && l == pi.val {
+								switch n := l.Count(); {
+								case n >= 2 && r.chance(0.6):
+									p.do(&Op{Name: "LReverse", R: reg})
+								case n >= 2 && r.chance(0.5):
+									p.do(&Op{Name: "LDelete", R: reg, Idxs: []int64{0}})
+								default:
+									p.do(&Op{Name: "LInsert", R: reg, I: 0, Vals: []Operand{p.scalar()}})
+								}
+								p.do(&Op{Name: "GetTF", R: rr, TF: tf})
+								p.do(&Op{Name: "TypeOfTF", R: rr, TF: tf})
+							}
+						}
+					}
+				}
 				// the same path again after some live container (often one on the path) was modified: a read has no memory
 				if r.chance(0.3) && !p.broken {
 					for k := 1 + r.Intn(2); k > 0; k-- {
